@@ -7,6 +7,11 @@
   (the zero count added to the sketch's).  With `goodRun_bins_pos/_neg`, `goodRun_mapping` and `goodRun_nil` this
   gives one step lemma for each kind of block the regenerated `Encode` writes (`sketchBlocks`).
 
+  `cntOf`, `decVarfloat64_of_bits`, `decVarfloat64_enc`, `ccCounts_step`, `ccCounts_enc`: the model's count trace
+  `ccCounts` on the bytes of an encoded count list is the list of decoded counts.  Each step is stated over abstract
+  bytes first (`decVarfloat64_of_bits`, `ccCounts_step`) and instantiated last, which keeps the kernel from unfolding
+  the codec on an open term (the direct statement ran into its recursion limit).
+
   Core Lean only.
 -/
 import DDS.Proofs.GenPagSketch5
@@ -52,4 +57,37 @@ theorem goodRun_zero (fb : List (BitVec 8) → Flag → Res (List (BitVec 8) × 
 
 end goodRunStep3
 
+/-! ### the counts of an encoded contiguous block -/
+
+/-- the count a varfloat bit pattern `b` decodes to (`float64frombits(b) - 1`) -/
+def cntOf (b : Nat) : F64 := F64.sub (F64.ofBits (UInt64.ofNat b)) F64.one
+
+theorem decVarfloat64_of_bits (bs : Bytes) (b : Nat) (R : Bytes) (h : decVarfloatBits bs = .ok (b, R)) :
+    decVarfloat64 bs = .ok (cntOf b, R) := by
+  unfold decVarfloat64
+  rw [h]
+  rfl
+
+theorem decVarfloat64_enc (b : Nat) (hb : b < W64) (R : Bytes) :
+    decVarfloat64 (encVarfloatBits b ++ R) = .ok (cntOf b, R) :=
+  decVarfloat64_of_bits _ b R (decVarfloatBits_encVarfloatBits b hb R)
+
+theorem ccCounts_step (n : Nat) (bs : Bytes) (c : F64) (R : Bytes) (h : decVarfloat64 bs = .ok (c, R)) :
+    ccCounts (n + 1) bs = c :: ccCounts n R := by
+  simp only [ccCounts, h]
+
+/-- **the model's count trace on an encoded count list**: one count per pattern, in order -/
+theorem ccCounts_enc (R : Bytes) : ∀ (bs : List Nat), (∀ b ∈ bs, b < W64) →
+    ccCounts bs.length (bs.flatMap encVarfloatBits ++ R) = bs.map cntOf := by
+  intro bs
+  induction bs with
+  | nil => intro _; rfl
+  | cons b bs ih =>
+    intro h
+    have e : (b :: bs).flatMap encVarfloatBits ++ R =
+        encVarfloatBits b ++ (bs.flatMap encVarfloatBits ++ R) := by
+      simp only [List.flatMap_cons, List.append_assoc]
+    rw [e, List.length_cons,
+      ccCounts_step _ _ _ _ (decVarfloat64_enc b (h b (List.mem_cons_self ..)) _),
+      ih (fun x hx => h x (List.mem_cons_of_mem _ hx)), List.map_cons]
 end DDS.GenPagSketch
